@@ -186,3 +186,47 @@ def gen_mutation(rng, cpv_dict):
             step = ("add", rng.choice(absent), rng.choice(PKGS), rng.choice(VERS))
         return step
     return None
+
+
+# -- equal versions under different spellings ------------------------------------------------------------------------
+# Each group lists spellings pkgcore's version comparison treats as the same version (PMS: components after the
+# first that start with 0 compare as decimal fractions, a missing revision is -r0, a missing suffix number is 0).
+# The groups only steer generation; what matches what is always asked of atom.match itself.
+SPELLING_GROUPS = [
+    ["1.0", "1.00", "1.0-r0", "1.00-r0", "1.000"],
+    ["0.06", "0.060", "0.0600", "0.06-r0"],
+    ["1.01", "1.010", "1.01-r0"],
+    ["1_alpha", "1_alpha0", "1_alpha-r0"],
+    ["2_p", "2_p0", "2_p00"],
+    ["3", "3-r0", "3-r00"],
+    ["2_rc1", "2_rc01", "2_rc1-r0"],
+    ["1.0-r1", "1.00-r1", "1.0-r01"],
+]
+
+
+def gen_spelling_case(rng):
+    """Two repositories holding one package whose versions are some spellings of an equal-version group (plus an
+    unrelated version), and version-operator atoms spelled in every way of the group - including spellings that are
+    NOT stored literally although an equal version is."""
+    group = rng.choice(SPELLING_GROUPS)
+    other = rng.choice([g for g in SPELLING_GROUPS if g is not group])
+    c, p = rng.choice(CATS), rng.choice(PKGS)
+    dicts = []
+    for _ in range(2):
+        stored = rng.sample(group, rng.choice([1, 1, 2, 3]))
+        if rng.random() < 0.5:
+            stored.append(rng.choice(other))
+        d = {c: {p: stored}}
+        if rng.random() < 0.5:
+            d[c][rng.choice([x for x in PKGS if x != p])] = [rng.choice(group)]
+        dicts.append(d)
+    atoms = []
+    for s in group:
+        atoms.append("=%s/%s-%s" % (c, p, s))
+        if "-r" not in s:
+            atoms.append("~%s/%s-%s" % (c, p, s))
+    for op in (">=", "<=", "<", ">"):
+        atoms.append("%s%s/%s-%s" % (op, c, p, rng.choice(group)))
+    atoms.append("=%s/%s-%s" % (c, p, rng.choice(other)))
+    rng.shuffle(atoms)
+    return dicts, atoms[: 9], (c, p)
